@@ -6,7 +6,7 @@ package freelist
 // This file contains comments only.
 
 //@ pure func infree(f *array, p common.Pgid) bool = exists wfree int :: 0 <= wfree && wfree < len(f.ids) && f.ids[wfree] == p
-//@ pure func wfIds(f *array) bool = (forall i int, j int :: 0 <= i && i <= j && j < len(f.ids) ==> f.ids[j] - f.ids[i] >= j - i) && (forall i int :: 0 <= i && i < len(f.ids) ==> f.ids[i] >= 2)
+//@ pure func wfIds(f *array) bool = (forall i int, j int {f.ids[i], f.ids[j]} :: 0 <= i && i <= j && j < len(f.ids) ==> f.ids[j] - f.ids[i] >= j - i) && (forall i int :: 0 <= i && i < len(f.ids) ==> f.ids[i] >= 2)
 
 //@ func (*array).Allocate
 //@   props C09 C06
@@ -14,10 +14,28 @@ package freelist
 //@   ensures [range] result == 0 || result >= 2
 //@   ensures [wasfree] result != 0 ==> forall k int :: 0 <= k && k < n ==> old(infree(f, result + k))
 //@   witness [wasfree] wfree := rangeindex + 2 - n + k
+//@   ensures [norun] result == 0 ==> (forall s int :: 0 <= s && s + n <= len(f.ids) ==> f.ids[s+n-1] - f.ids[s] != n - 1)
+//@   ensures [unchanged] result == 0 ==> len(f.ids) == old(len(f.ids)) && arrayof(f.ids) == old(arrayof(f.ids)) && offof(f.ids) == old(offof(f.ids)) && samerow(f.ids)
+//@   ensures [taken] result != 0 ==> len(f.ids) == old(len(f.ids)) - n
+//@   ensures [removed] result != 0 ==> forall j int :: 0 <= j && j < len(f.ids) ==> f.ids[j] < result || f.ids[j] >= result + n
+//@   ensures [nonew] forall j int :: 0 <= j && j < len(f.ids) ==> old(infree(f, f.ids[j]))
+//@   ensures [kept] result != 0 ==> forall j int :: 0 <= j && j < old(len(f.ids)) && (old(f.ids[j]) < result || old(f.ids[j]) >= result + n) ==> infree(f, old(f.ids[j]))
+//@   witness [kept] wfree := (j < rangeindex + 2 - n ? j : j - n)
+//@   ensures [wf] wfIds(f)
+//@   ensures [owner] result != 0 ==> has(f.allocs, result) && f.allocs[result] == txid
+//@   ensures [uncached] result != 0 ==> forall k int :: 0 <= k && k < n ==> !has(f.cache, result + k)
+//@   ensures [cachekept] forall p common.Pgid :: has(f.cache, p) == (old(has(f.cache, p)) && !(result != 0 && result <= p && p < result + n))
 //@   loop 0 invariant [idx] 0-1 <= rangeindex && rangeindex < len(f.ids)
 //@   loop 0 invariant [init0] rangeindex == 0-1 ==> previd == 0 && initial == 0
 //@   loop 0 invariant [run] rangeindex >= 0 ==> previd == f.ids[rangeindex] && initial <= previd && 0 <= rangeindex - (previd - initial) && f.ids[rangeindex - (previd - initial)] == initial && previd - initial + 1 < n && initial >= 2 && (rangeindex - (previd - initial) == 0 || f.ids[rangeindex - (previd - initial)] - f.ids[rangeindex - (previd - initial) - 1] >= 2)
 //@   loop 0 invariant [norun] forall s int :: 0 <= s && s + n <= rangeindex + 1 ==> f.ids[s+n-1] - f.ids[s] != n - 1
+//@   loop 1 invariant [i] 0 <= i && i <= n && initial >= 2 && initial + n <= 18446744073709551616
+//@   loop 1 invariant [cache] forall p common.Pgid :: has(f.cache, p) == (old(has(f.cache, p)) && !(initial <= p && p < initial + i))
+//@   loop 1 invariant [len] len(f.ids) == old(len(f.ids)) - n && rangeindex + 2 - n >= 0 && rangeindex + 1 < old(len(f.ids))
+//@   loop 1 invariant [run] old(f.ids[rangeindex + 2 - n]) == initial && old(f.ids[rangeindex + 1]) == initial + n - 1
+//@   loop 1 invariant [low] forall j int :: 0 <= j && j < rangeindex + 2 - n ==> f.ids[j] == old(f.ids[j])
+//@   loop 1 invariant [high] forall j int :: rangeindex + 2 - n <= j && j < len(f.ids) ==> f.ids[j] == old(f.ids[j + n])
+//@   loop 1 invariant [shared] f.cache == old(f.cache) && f.allocs == old(f.allocs)
 
 // ---------------------------------------------------------------- shared.go
 
@@ -191,6 +209,95 @@ package freelist
 //@   loop 0 invariant [alloc] !has(t.allocs, p.id)
 //@   loop 0 invariant [page] p.id == old(p.id) && p.overflow == old(p.overflow) && p.id >= 2
 
+// ---------------------------------------------------------------- freelist page (C12: count rule, C07/C09: what is persisted)
+// The page image written by Write: flag 0x10; with l = Count() ids, l < 0xFFFF stores l in the header count and the
+// ids directly behind the header; otherwise the header count is 0xFFFF, the first payload element holds l and the
+// ids follow it. Copyall receives exactly the payload window of l elements. FreelistPageCount/FreelistPageIds
+// (package common) are proved to read that same window, so a symmetric change of writer and reader fails here.
+
+//@ func (*shared).PendingCount
+//@   props C09 C07 C12
+//@   requires t.pending != nil && (forall tid common.Txid :: has(t.pending, tid) ==> t.pending[tid] != nil)
+//@   ensures [bound] result >= 0 && result <= 1099511627776
+//@   modifies nothing
+//@   loop 0 invariant [bound] count >= 0 && count <= 1099511627776
+//@   skip inv.preserve/loop0.bound because A-mem: the pending lists are Go slices held in memory, the sum of their lengths is far below 2^40 (8 TiB of page ids); not derivable from a contract
+
+//@ func (*shared).Count
+//@   props C09 C07 C12
+//@   requires t.pending != nil && (forall tid common.Txid :: has(t.pending, tid) ==> t.pending[tid] != nil)
+//@   ensures [sum] result == wrapint(lastret("freelist.Interface.FreeCount", 0) + lastret("(*shared).PendingCount", 0))
+//@   ensures [bound] result >= 0 && result <= 2199023255552
+//@   ensures [calls] callstotal("freelist.Interface.FreeCount") == old(callstotal("freelist.Interface.FreeCount")) + 1 && callstotal("(*shared).PendingCount") == old(callstotal("(*shared).PendingCount")) + 1
+//@   modifies nothing
+
+//@ func (*shared).EstimatedWritePageSize
+//@   props C09 C07 C12
+//@   requires t.pending != nil && (forall tid common.Txid :: has(t.pending, tid) ==> t.pending[tid] != nil)
+//@   ensures [room] let n := lastret("(*shared).Count", 0) in result == wrapint(16 + wrapint(8 * (n >= 65535 ? wrapint(n + 1) : n)))
+//@   modifies nothing
+
+//@ func (*shared).Copyall
+//@   opaque
+//@   modifies window(dst)
+
+//@ func (*shared).Write
+//@   props C12 C09 C07
+//@   requires p != nil && t.pending != nil && (forall tid common.Txid :: has(t.pending, tid) ==> t.pending[tid] != nil)
+//@   ensures [flag] p.flags == common.FreelistPageFlag && p.id == old(p.id) && p.overflow == old(p.overflow)
+//@   ensures [empty] lastret("(*shared).Count", 0) == 0 ==> p.count == 0 && callstotal("(*shared).Copyall") == old(callstotal("(*shared).Copyall"))
+//@   ensures [small] (let l := lastret("(*shared).Count", 0) in 0 < l && l < 65535 ==> p.count == l && lastargarr("(*shared).Copyall", 1) == arrayof(rawslice(p, 16, "common.Pgid")) && lastargoff("(*shared).Copyall", 1) == offof(rawslice(p, 16, "common.Pgid")) && lastarglen("(*shared).Copyall", 1) == l)
+//@   ensures [big] (let l := lastret("(*shared).Count", 0) in l >= 65535 ==> p.count == 65535 && rawslice(p, 16, "common.Pgid")[0] == l && lastargarr("(*shared).Copyall", 1) == arrayof(rawslice(p, 16, "common.Pgid")) && lastargoff("(*shared).Copyall", 1) == offof(rawslice(p, 16, "common.Pgid")) + 1 && lastarglen("(*shared).Copyall", 1) == l)
+//@   ensures [once] lastret("(*shared).Count", 0) > 0 ==> callstotal("(*shared).Copyall") == old(callstotal("(*shared).Copyall")) + 1
+//@   modifies p.flags, p.count, allelems("common.Pgid")
+
+// Read decodes a freelist page: exactly the window FreelistPageIds returns is handed to Init (as a private sorted
+// copy, never the mapped page itself); an empty page initialises an empty list.
+//@ func (*shared).Read
+//@   props C12 C09 C13
+//@   requires p != nil
+//@   panics when p.flags != common.FreelistPageFlag || (p.count == 65535 && rawslice(p, 16, "common.Pgid")[0] > 9223372036854775807)
+//@   ensures [init] callstotal("freelist.Interface.Init") == old(callstotal("freelist.Interface.Init")) + 1 && callstotal("common.(*Page).FreelistPageIds") == old(callstotal("common.(*Page).FreelistPageIds")) + 1 && lastarg("common.(*Page).FreelistPageIds", 0) == p
+//@   ensures [all] lastarglen("freelist.Interface.Init", 1) == lastretlen("common.(*Page).FreelistPageIds", 0)
+//@   ensures [private] lastarglen("freelist.Interface.Init", 1) > 0 ==> lastargarr("freelist.Interface.Init", 1) != lastretarr("common.(*Page).FreelistPageIds", 0) && fresh(lastargarr("freelist.Interface.Init", 1))
+
+// ---------------------------------------------------------------- hashmap back end
+// Representation: forwardMap (start -> size), backwardMap (end -> size) and freemaps (size -> set of starts) describe
+// the same set of spans. hmspan(f, s, z): [s, s+z) is a registered span.
+//@ pure func hmspan(f *hashMap, s common.Pgid, z uint64) bool = has(f.forwardMap, s) && f.forwardMap[s] == z
+//@ pure func wfHM(f *hashMap) bool = f.forwardMap != nil && f.backwardMap != nil && f.freemaps != nil && (forall s common.Pgid :: has(f.forwardMap, s) ==> f.forwardMap[s] >= 1 && has(f.backwardMap, s + f.forwardMap[s] - 1) && f.backwardMap[s + f.forwardMap[s] - 1] == f.forwardMap[s]) && (forall e common.Pgid :: has(f.backwardMap, e) ==> f.backwardMap[e] >= 1 && f.backwardMap[e] <= e + 1 && has(f.forwardMap, e + 1 - f.backwardMap[e]) && f.forwardMap[e + 1 - f.backwardMap[e]] == f.backwardMap[e])
+
+//@ pure func infm(f *hashMap, z uint64, s common.Pgid) bool = has(f.freemaps, z) && has(f.freemaps[z], s)
+//@ pure func sepfm(f *hashMap) bool = (forall z1 uint64, z2 uint64 :: z1 != z2 && has(f.freemaps, z1) && has(f.freemaps, z2) ==> f.freemaps[z1] != f.freemaps[z2]) && (forall z uint64 :: has(f.freemaps, z) ==> f.freemaps[z] != nil && f.freemaps[z] != f.cache)
+
+//@ func (*hashMap).addSpan
+//@   props C09
+//@   requires sepfm(f) && (forall z uint64 :: has(f.freemaps, z) ==> allocated(f.freemaps[z]))
+//@   ensures [sep] sepfm(f)
+//@   ensures [fm] forall z uint64, s common.Pgid :: infm(f, z, s) == (old(infm(f, z, s)) || (z == size && s == start))
+//@   ensures [cache] f.cache == old(f.cache) && (forall p common.Pgid :: has(f.cache, p) == old(has(f.cache, p)))
+//@   requires f.forwardMap != nil && f.backwardMap != nil && f.freemaps != nil && f.forwardMap != f.backwardMap && size >= 1 && start + size <= 18446744073709551615
+//@   ensures [fwd] forall s common.Pgid :: has(f.forwardMap, s) == (old(has(f.forwardMap, s)) || s == start) && (s != start ==> f.forwardMap[s] == old(f.forwardMap[s]))
+//@   ensures [fwdnew] f.forwardMap[start] == size
+//@   ensures [bwd] forall e common.Pgid :: has(f.backwardMap, e) == (old(has(f.backwardMap, e)) || e == start + size - 1) && (e != start + size - 1 ==> f.backwardMap[e] == old(f.backwardMap[e]))
+//@   ensures [bwdnew] f.backwardMap[start + size - 1] == size
+//@   ensures [count] f.freePagesCount == wrapu64(old(f.freePagesCount) + size)
+//@   ensures [same] f.forwardMap == old(f.forwardMap) && f.backwardMap == old(f.backwardMap) && f.freemaps == old(f.freemaps)
+//@   modifies mapof(f.forwardMap), mapof(f.backwardMap), mapof(f.freemaps), f.freePagesCount, allmaps("common.Pgid", "struct{}")
+
+//@ func (*hashMap).delSpan
+//@   props C09
+//@   requires sepfm(f) && has(f.freemaps, size) && (forall z uint64 :: has(f.freemaps, z) ==> allocated(f.freemaps[z]))
+//@   ensures [sep] sepfm(f)
+//@   ensures [fm] forall z uint64, s common.Pgid :: infm(f, z, s) == (old(infm(f, z, s)) && !(z == size && s == start))
+//@   ensures [cache] f.cache == old(f.cache) && (forall p common.Pgid :: has(f.cache, p) == old(has(f.cache, p)))
+//@   requires f.forwardMap != nil && f.backwardMap != nil && f.freemaps != nil && f.forwardMap != f.backwardMap && size >= 1 && start + size <= 18446744073709551615
+//@   ensures [fwd] forall s common.Pgid :: has(f.forwardMap, s) == (old(has(f.forwardMap, s)) && s != start) && (s != start ==> f.forwardMap[s] == old(f.forwardMap[s]))
+//@   ensures [bwd] forall e common.Pgid :: has(f.backwardMap, e) == (old(has(f.backwardMap, e)) && e != start + size - 1) && (e != start + size - 1 ==> f.backwardMap[e] == old(f.backwardMap[e]))
+//@   ensures [count] f.freePagesCount == wrapu64(old(f.freePagesCount) - size)
+//@   ensures [same] f.forwardMap == old(f.forwardMap) && f.backwardMap == old(f.backwardMap) && f.freemaps == old(f.freemaps)
+//@   modifies mapof(f.forwardMap), mapof(f.backwardMap), mapof(f.freemaps), f.freePagesCount, allmaps("common.Pgid", "struct{}")
+
 // ---------------------------------------------------------------- interface contracts (used at call sites in package bbolt)
 // The ghost gfree[obj] is the abstract free set of a freelist object.
 //@ ghost var gfree mapto[int,set[common.Pgid]]
@@ -214,8 +321,15 @@ package freelist
 //@   modifies lastunreg, all("shared.readonlyTXIDs"), allelems("common.Txid")
 
 //@ func Interface.FreeCount
-//@   ensures result >= 0
+//@   ensures result >= 0 && result <= 1099511627776     -- A-mem: the free ids are held in memory
 //@   modifies nothing
+
+//@ func Interface.Count
+//@   ensures result >= 0 && result <= 2199023255552     -- A-mem, see (*shared).Count
+//@   modifies nothing
+
+//@ func Interface.Copyall
+//@   modifies window(dst)
 
 //@ func Interface.PendingCount
 //@   ensures result >= 0
